@@ -297,6 +297,9 @@ Apply(c, e, step) ==
     [] e.a = "get"      -> ApplyGet(m, o, e, obj, step)
     [] e.a = "explain"  -> ApplyExplain(m, o, e, step)
     [] e.a = "config"   -> ApplyConfig(m, o, e, obj, step)
+    \* another text (and sub-specifications) given to a parsed object, which is parsed again: the machine's action Reparse
+    [] e.a = "reparse"  -> IF CanReparse(m) THEN R(ReparseF(m, Desugar(e.phi)), o, ExcClass(TRUE, e, "reparse.exc", step), 0)
+                           ELSE R(m, [o EXCEPT !.dead = TRUE], Ok, 0)
 
 \* relations between the objects of a case, evaluated when all its events are consumed
 RelFail(c, r) ==
